@@ -755,6 +755,10 @@ def c28_shards(tier, seed):
         for i in range(reps):
             shards.append(gc_shard("A", plan, rnd, ops, flags=["events"], workers=rnd.choice([2, 8]), mutators=rnd.choice([1, 4]), heap=rnd.choice([32, 64]),
                                    stress=rnd.choice([100000, 200000]), extra=["--layout", "map32"]))
+    # failing allocations: every AllocationOptions combination against a full heap (the C10 scenario) under the page monitor;
+    # a request that fails, with or without a collection, must leave no reservation behind
+    for plan in ["SemiSpace", "Immix", "MarkSweep", "GenImmix"]:
+        shards.append(gc_shard("A", plan, rnd, 3 if tier == "quick" else 12, flags=["events"], workers=2, mutators=1, heap=16, stress=0, scenario="oom"))
     return shards
 
 
